@@ -24,6 +24,7 @@ PROGRAMS = [
     ("two-wires-same-pair", 'Signal x = ("iron-plate", 10);\nSignal y = x | "copper-plate";\nSignal z = x + y;\nSignal w0 = x * 3;\nSignal w1 = x - 1;\n'),
     ("bundle", 'Bundle b = { ("signal-A", 20), ("signal-B", 5) };\nBundle r = (b > 10) : b;\nSignal n = any(b) > 15;\n'),
     ("lamp", 'Signal x = ("signal-A", 6);\nEntity l = place("small-lamp", 0, 0);\nl.enable = x > 3;\nEntity p = place("power-switch", 4, 0);\np.enable = x < 9;\n'),
+    ("all-implicit", 'Signal a = 5;\nSignal b = a * 2;\nEntity l = place("small-lamp", 0, 0);\nl.enable = b;\nSignal r = b + a;\n'),
     ("const-multi", 'Signal x = ("signal-A", 6);\nSignal y = ("signal-B", 4);\nSignal d = (x > 3 && y < 9) : 4;\nSignal k = ("signal-C", 42);\nSignal s = k + x;\n'),
 ]
 
